@@ -25,8 +25,8 @@ def phase_covariance(r, r0, L0):
     r0 = float(r0)
     L0 = float(L0)
 
-    # Get rid of any zeros
-    r += 1e-40
+    # Get rid of any zeros (on a new array: numpy.float32() returns a float32 input itself)
+    r = r + 1e-40
 
     A = (L0 / r0) ** (5. / 3)
 
